@@ -48,6 +48,7 @@ cfgs["C15"] = {"functions": RV,
   "assumptions": ["SDK: gov runs a proposal handler once at submission (dry-run) and in EndBlock without recover; SetParamSet panics unless each field validator passes"]}
 cfgs["C16"] = {"functions": ["x/aggregate/keeper.(Keeper).OnRecvPacket", "x/aggregate.(IBCMiddleware).OnRecvPacket"]}
 cfgs["C18"] = {"functions": ["x/xibc/core/client/keeper.(Keeper).CreateClient", "x/xibc/core/client/keeper.(Keeper).UpgradeClient", "x/xibc/core/client/keeper.(Keeper).ToggleClient", "x/xibc/core/client/keeper.(Keeper).UpdateClient", "x/xibc/core/client/keeper.(Keeper).HandleCreateClient", "x/xibc/core/client/keeper.(Keeper).HandleUpgradeClient", "x/xibc/core/client/keeper.(Keeper).HandleToggleClient", "x/xibc/core/client/types.UnpackClientState", "x/xibc/core/client/types.UnpackConsensusState"], "impls": [{"iface": "x/xibc/exported.IFACE Header.GetHeight", "impl": "x/xibc/clients/tss-client/types.(Header).GetHeight"}, {"iface": "x/xibc/exported.IFACE Header.GetHeight", "impl": "x/xibc/clients/light-clients/tendermint/types.(Header).GetHeight"}, {"iface": "x/xibc/exported.IFACE Header.GetHeight", "impl": "x/xibc/clients/light-clients/bsc/types.(Header).GetHeight"}, {"iface": "x/xibc/exported.IFACE Header.GetHeight", "impl": "x/xibc/clients/light-clients/eth/types.(Header).GetHeight"}]}
+cfgs["C12"] = {"functions": ["x/aggregate/keeper.(Keeper).SetTokenPair", "x/aggregate/keeper.(Keeper).SetDenomMap", "x/aggregate/keeper.(Keeper).SetERC20Map", "x/aggregate/keeper.(Keeper).deleteDenomMap", "x/aggregate/keeper.(Keeper).deleteERC20Map", "x/aggregate/keeper.(Keeper).deleteTokenPair", "x/aggregate/keeper.(Keeper).IsDenomRegistered", "x/aggregate/keeper.(Keeper).IsERC20Registered", "x/aggregate/keeper.(Keeper).GetERC20Map", "x/aggregate/keeper.(Keeper).GetDenomMap", "x/aggregate/keeper.(Keeper).GetTokenPair", "x/aggregate/keeper.(Keeper).SetDenomsMap", "x/aggregate/keeper.(Keeper).DeleteTokenPair", "x/aggregate/keeper.(Keeper).RegisterCoin", "x/aggregate/keeper.(Keeper).AddCoin", "x/aggregate/keeper.(Keeper).RegisterERC20", "x/aggregate/keeper.(Keeper).ToggleRelay", "x/aggregate/keeper.(Keeper).UpdateTokenPairERC20"], "inventory": [{"name": "aggregate-store-writers", "kind": "kvwriters", "scope": "x/aggregate", "allowed": ["(x/aggregate/keeper.Keeper).SetTokenPair", "(x/aggregate/keeper.Keeper).SetDenomMap", "(x/aggregate/keeper.Keeper).SetERC20Map", "(x/aggregate/keeper.Keeper).deleteDenomMap", "(x/aggregate/keeper.Keeper).deleteERC20Map", "(x/aggregate/keeper.Keeper).deleteTokenPair"], "reason": "the three registry index families are only written through the six accessor functions, each under a whole-view contract"}]}
 for k, v in cfgs.items():
     v["id"] = k
     # preserve hand-edited extra keys
